@@ -280,6 +280,7 @@ func (g *Gen) Step() bool {
 		choice{g.wt("connevent") * boolInt(len(conns) > 0), func() { g.opConnEvent(conns) }},
 		choice{g.wt("badanswer") * boolInt(len(pend) > 0), func() { g.opBadAnswer(pend) }},
 		choice{g.wt("badevent"), g.opBadEvent},
+		choice{g.wt("httptoken") * boolInt(len(pend) > 0), func() { g.opHTTPToken(pend) }},
 		choice{g.wt("sleep") * boolInt(g.w.Cfg.UnsubDelayMs > 0), func() {
 			g.w.Exec(Op{K: "sleep", N: g.w.Cfg.UnsubDelayMs/2 + rapid.IntRange(0, g.w.Cfg.UnsubDelayMs).Draw(g.t, "sleepms")})
 		}},
@@ -1593,6 +1594,23 @@ func (g *Gen) opBadEvent() {
 		return
 	}
 	g.w.Exec(Op{K: "rawev", S: "event." + name + ".change", P: `{"values":{"zz":` + ref + `}}`, Key: "badevent"})
+}
+
+// opHTTPToken: a token event for the connection of an HTTP request that is
+// being served (a request of its connection is outstanding at the services).
+func (g *Gen) opHTTPToken(pend []PendingView) {
+	var cids []string
+	for _, pv := range pend {
+		if pv.Actor >= 1000 && pv.P.CID != "" {
+			cids = append(cids, pv.P.CID)
+		}
+	}
+	if len(cids) == 0 {
+		return
+	}
+	sort.Strings(cids)
+	cid := g.sample("htcid", cids)
+	g.w.Exec(Op{K: "rawev", S: "conn." + cid + ".token", P: `{"token":` + g.sample("token", g.tokens()) + `}`, Key: "httptoken"})
 }
 
 // opConnEvent: an event on a connection's subject that is not the token event.
